@@ -288,7 +288,8 @@ func (x *Exec) applyEffects(st *State, eff *Effects, args []Value, binds []Value
 	for h := range eff.heaps {
 		x.havocHeap(st, h)
 	}
-	if eff.events || eff.opaque {
+	if (eff.events || eff.opaque) && strings.HasPrefix(why, "loop") {
+		// the event log is per activation: only a loop cut forgets it, a call does not
 		x.havocEvents(st)
 	}
 }
@@ -397,6 +398,17 @@ func (x *Exec) applyContract(st *State, fn *ssa.Function, fc *FuncContract, args
 		x.oblige(st, "requires", key+":"+c.Label+"@"+x.srcAt(pos), c.Props, g, pos)
 		st.assume(g)
 	}
+	invs, invRecv := x.w.recvInvFor(fn)
+	for _, c := range invs {
+		env.vars[c.Param] = env.vars[invRecv]
+		g, err := env.evalBool(c.Expr)
+		if err != nil {
+			x.contractError(c, err)
+			continue
+		}
+		x.oblige(st, "requires", key+":receiver-invariant:"+c.Label+"@"+x.srcAt(pos), c.Props, g, pos)
+		st.assume(g)
+	}
 	x.havocCall(st, fn, args, binds)
 	results := x.havocResults(fn.Signature, fn.Name())
 	for i, r := range results {
@@ -408,6 +420,12 @@ func (x *Exec) applyContract(st *State, fn *ssa.Function, fc *FuncContract, args
 	}
 	env = x.specEnvForCall(st, pre, fn, args, binds)
 	env.setResults(fn, results)
+	for _, c := range invs {
+		env.vars[c.Param] = env.vars[invRecv]
+		if g, err := env.evalBool(c.Expr); err == nil {
+			st.assume(g)
+		}
+	}
 	for _, c := range fc.Ensures {
 		if mentionsEvents(c.Expr) {
 			continue
@@ -574,6 +592,13 @@ func (x *Exec) evKind(st *State, kind string, argSorts, resSorts []string) *EvKi
 	} else {
 		e.n = VarT(fmt.Sprintf("ev_%s_n%s", kind, st.evEpoch), "Int")
 		st.assume(Cmp(">=", e.n, IntT(0)))
+		// everything logged before the cut precedes the clock at the cut
+		if st.epochClock != nil {
+			x.fresh++
+			kq := VarT(fmt.Sprintf("k!s%d", x.fresh), "Int")
+			st.assume(Quant("forall", []*Term{kq}, Implies(And(Cmp("<=", IntT(0), kq), Cmp("<", kq, e.n)),
+				And(Cmp("<", App("select", "Int", e.seq, kq), st.epochClock), Cmp(">=", App("select", "Int", e.seq, kq), IntT(0))))))
+		}
 	}
 	st.ev[kind] = e
 	return e
@@ -625,6 +650,48 @@ func (x *Exec) recordEvent(st *State, kind string, args []Value, results []Value
 }
 
 func (x *Exec) havocEvents(st *State) {
+	if x.loopKinds != nil {
+		// only the kinds the loop body can log are forgotten; the clock still advances
+		x.fresh++
+		ep := fmt.Sprintf("!e%d", x.fresh)
+		oldClock := st.clock
+		if oldClock == nil {
+			oldClock = IntT(0)
+		}
+		names := make([]string, 0, len(x.loopKinds))
+		for k := range x.loopKinds {
+			names = append(names, k)
+		}
+		sort.Strings(names)
+		saveEpoch, saveClock := st.evEpoch, st.epochClock
+		st.clock = VarT("ev_clock"+ep, "Int")
+		st.assume(Cmp(">=", st.clock, oldClock))
+		st.evEpoch, st.epochClock = ep, st.clock
+		for _, kname := range names {
+			o, ok := st.ev[kname]
+			var as, rs []string
+			if ok {
+				as, rs = o.argSorts, o.resSorts
+			} else {
+				var found bool
+				as, rs, found = x.w.eventSorts(kname, st.top().fn)
+				if !found {
+					continue
+				}
+			}
+			delete(st.ev, kname)
+			ne := x.evKind(st, kname, as, rs)
+			if ok {
+				x.logAppendOnly(st, o, ne)
+			}
+		}
+		// kinds not touched by the loop keep their log; later lazily created kinds are concrete again
+		st.evEpoch, st.epochClock = saveEpoch, saveClock
+		if saveEpoch != "" {
+			st.evEpoch, st.epochClock = saveEpoch, saveClock
+		}
+		return
+	}
 	x.fresh++
 	st.evEpoch = fmt.Sprintf("!e%d", x.fresh)
 	old := st.ev
@@ -634,16 +701,20 @@ func (x *Exec) havocEvents(st *State) {
 		kinds = append(kinds, kname)
 	}
 	sort.Strings(kinds)
-	for _, kname := range kinds {
-		o := old[kname]
-		x.evKind(st, kname, o.argSorts, o.resSorts)
-	}
 	oldClock := st.clock
 	if oldClock == nil {
 		oldClock = IntT(0)
 	}
 	st.clock = VarT("ev_clock"+st.evEpoch, "Int")
 	st.assume(Cmp(">=", st.clock, oldClock))
+	st.epochClock = st.clock
+	// re-create the kinds known so far with the ordering fact
+	st.ev = map[string]*EvKind{}
+	for _, kname := range kinds {
+		o := old[kname]
+		ne := x.evKind(st, kname, o.argSorts, o.resSorts)
+		x.logAppendOnly(st, o, ne)
+	}
 }
 
 // ---------------------------------------------------------------- maps (heap of map contents)
@@ -796,4 +867,38 @@ func (w *World) isModular(fn *ssa.Function) bool {
 		return true
 	}
 	return false
+}
+
+// logAppendOnly: the event log only grows, so entries recorded before a cut are
+// still there after it (a frame property of the ghost log itself).
+func (x *Exec) logAppendOnly(st *State, old, nw *EvKind) {
+	st.assume(Cmp(">=", nw.n, old.n))
+	same := func(k *Term) *Term {
+		var parts []*Term
+		for i := range old.args {
+			parts = append(parts, Eq(Select(nw.args[i], k, old.argSorts[i]), Select(old.args[i], k, old.argSorts[i])))
+		}
+		for i := range old.res {
+			parts = append(parts, Eq(Select(nw.res[i], k, old.resSorts[i]), Select(old.res[i], k, old.resSorts[i])))
+		}
+		parts = append(parts, Eq(Select(nw.seq, k, "Int"), Select(old.seq, k, "Int")))
+		return And(parts...)
+	}
+	if old.n.Kind == KInt && old.n.I <= 6 {
+		for i := int64(0); i < old.n.I; i++ {
+			st.assume(same(IntT(i)))
+		}
+		return
+	}
+	x.fresh++
+	kq := VarT(fmt.Sprintf("k!l%d", x.fresh), "Int")
+	var parts []*Term
+	for i := range old.args {
+		parts = append(parts, Eq(App("select", old.argSorts[i], nw.args[i], kq), App("select", old.argSorts[i], old.args[i], kq)))
+	}
+	for i := range old.res {
+		parts = append(parts, Eq(App("select", old.resSorts[i], nw.res[i], kq), App("select", old.resSorts[i], old.res[i], kq)))
+	}
+	parts = append(parts, Eq(App("select", "Int", nw.seq, kq), App("select", "Int", old.seq, kq)))
+	st.assume(Quant("forall", []*Term{kq}, Implies(And(Cmp("<=", IntT(0), kq), Cmp("<", kq, old.n)), And(parts...))))
 }
